@@ -6,6 +6,9 @@
 //! version; every produced file (builder output and each re-serialisation round on two rebuild
 //! paths) is judged by the independent chunk walker in `walker.rs` and by content comparison.
 //!
+//! Space `holes` (both tiers): the value alphabet of the 64-bit hole bitmap of terrain chunks with the
+//! high_res_holes flag (`model::hole_alphabet`), on chunks that carry heights and normals.
+//!
 //! The thorough tier adds five spaces over an extended alphabet (values after `Site::core`):
 //! `ext` (<= 2 deviations with at least one extended value), `chunks` (full product of per-chunk
 //! sub-chunk presence/format, 256 combinations per tile), `top_names` and `top_chunks` (full
@@ -440,6 +443,77 @@ impl Space for Main {
         let mut r = CaseResult::new();
         r.key = c.spec.key();
         run_spec(&c.spec, &mut r);
+        r
+    }
+    fn case_timeout(&self) -> u64 {
+        180
+    }
+}
+
+// ------------------------------------------------------------------ hole bitmaps
+
+/// `holes`: every value of the `hole_bitmap` site on terrain chunks that have the high_res_holes
+/// flag, heights AND normals (with the flag the bitmap occupies the header bytes that otherwise hold
+/// the MCVT / MCNR offsets, so a reader has to find both sub-chunks without them), from two
+/// baselines: the minimal tile with heights, normals and the flag switched on (one terrain chunk,
+/// MCVT and MCNR its only sub-chunks) and the version-adjusted full tile with the flag switched on
+/// (two terrain chunks, every sub-chunk kind).  Quick: target MoP; thorough: every target version
+/// (the builder accepts the flag for every target; a refusal would be counted as an error return).
+/// Judged like every other builder input (`run_input`): walker, parse == input incl. heights,
+/// normals and bitmap, then rounds on both rebuild paths.
+struct Holes {
+    cases: Vec<Case>,
+}
+const HOLES_BASELINES: [&str; 2] = ["minimal_heights_normals", "full"];
+impl Holes {
+    fn versions(tier: Tier) -> Vec<usize> {
+        tier.pick(vec![VERSIONS.len() - 1], (0..VERSIONS.len()).collect())
+    }
+    fn new(tier: Tier) -> Holes {
+        check_hole_vals();
+        let flag = vidx(S_CFLAGS, "high_res_holes");
+        let mut cases = vec![];
+        let mut seen: HashSet<Spec> = HashSet::new();
+        // bitmap outermost: the lowest failing index names the simplest bitmap
+        for hv in 0..SITES[S_HOLES].vals.len() as u8 {
+            for bname in HOLES_BASELINES {
+                for version in Self::versions(tier) {
+                    let (mut spec, mut devs) = if bname == "full" { (Spec::full(version), vec![]) } else { (Spec::minimal(version), vec![(S_HEIGHTS, 1u8), (S_NORMALS, 1u8)]) };
+                    devs.push((S_CFLAGS, flag));
+                    devs.push((S_HOLES, hv));
+                    for (site, v) in &devs {
+                        spec.v[*site] = *v;
+                    }
+                    let canon = spec.canonical();
+                    assert!(canon.val(S_HEIGHTS) == "on" && canon.val(S_NORMALS) == "on" && canon.val(S_CFLAGS) == "high_res_holes" && canon.v[S_HOLES] == hv);
+                    if seen.insert(canon.clone()) {
+                        cases.push(Case { base: bname, devs, spec: canon });
+                    }
+                }
+            }
+        }
+        Holes { cases }
+    }
+}
+impl Space for Holes {
+    fn len(&self) -> u64 {
+        self.cases.len() as u64
+    }
+    fn describe(&self, i: u64) -> Value {
+        let c = &self.cases[i as usize];
+        let devs: Vec<Value> = c.devs.iter().map(|(s, v)| json!(format!("{}={}", SITES[*s].name, SITES[*s].vals[*v as usize]))).collect();
+        let class = match hole_value(c.spec.val(S_HOLES)) {
+            Some(v) => hole_alphabet().into_iter().find(|(x, _)| *x == v).map(|(_, cl)| cl).unwrap_or("?"),
+            None => "default",
+        };
+        json!({"base": c.base, "space": "holes", "hole_bitmap_class": class, "deviations": devs, "spec": c.spec.json()})
+    }
+    fn run(&self, i: u64) -> CaseResult {
+        let c = &self.cases[i as usize];
+        let mut r = CaseResult::new();
+        r.key = c.spec.key();
+        run_spec(&c.spec, &mut r);
+        r.count("hole_bitmaps_round_tripped", r.nontrivial as u64);
         r
     }
     fn case_timeout(&self) -> u64 {
@@ -989,6 +1063,7 @@ fn build_space(name: &str, _arg: &str, tier: Tier) -> Box<dyn Space> {
     match name {
         "savefile" => Box::new(SaveFile::new()),
         "main" => Box::new(Main::new(tier)),
+        "holes" => Box::new(Holes::new(tier)),
         "ext" => Box::new(Ext::new()),
         "chunks" => Box::new(Chunks::new()),
         "top_names" => Box::new(TopProduct::new("top_names_product", &[&TOP_NAMES])),
@@ -1156,10 +1231,12 @@ fn main() {
     let tier = c.tier;
     let (dmin, dfull) = tier.pick((2, 2), (3, 3));
     c.rule = format!(
-        "builder inputs = all specs with <= {dmin} deviations from the minimal baseline and <= {dfull} from the version-adjusted full baseline over {} sites ({} site values in total) x 6 target versions (VanillaEarly..MoP), canonicalised (sites without effect reset) and de-duplicated{}; per case: build -> to_bytes -> independent walker -> parse_adt -> content comparison with the input, then {ROUNDS} rounds of parse -> rebuild -> to_bytes on two rebuild paths (BuiltAdt::from_root_adt(root, None) and AdtBuilder::from_parsed(root).build()), every produced file walked; space savefile: BuiltAdt::write_to_file of the minimal and the full tile of every version over a path that holds nothing / each of those tiles (shorter, longer, same), file == to_bytes(). A case is non-trivial when the builder accepted it and a file was produced; distinct by (version, site vector).",
+        "builder inputs = all specs with <= {dmin} deviations from the minimal baseline and <= {dfull} from the version-adjusted full baseline over {} sites ({} site values in total) x 6 target versions (VanillaEarly..MoP), canonicalised (sites without effect reset) and de-duplicated{}; per case: build -> to_bytes -> independent walker -> parse_adt -> content comparison with the input, then {ROUNDS} rounds of parse -> rebuild -> to_bytes on two rebuild paths (BuiltAdt::from_root_adt(root, None) and AdtBuilder::from_parsed(root).build()), every produced file walked; space savefile: BuiltAdt::write_to_file of the minimal and the full tile of every version over a path that holds nothing / each of those tiles (shorter, longer, same), file == to_bytes(); space holes: the {} values of site hole_bitmap (the 64-bit hole bitmap of a terrain chunk with the high_res_holes flag, which occupies the header bytes that otherwise hold the MCVT/MCNR offsets: the default diagonal pattern, empty, all 64 single holes, the 8 full rows, the 8 full columns, lower half in {{1, 0x90, 0x1000, 0x3FFFF, 0x40000}} with upper half zero, upper half in that set with lower half zero, all 25 pairs with both halves in that set, dense) on chunks with the flag, heights AND normals x 2 baselines (minimal + heights + normals + flag: one terrain chunk; version-adjusted full + flag: two terrain chunks, every sub-chunk kind) x {}, judged like a case of space main (parse == input incl. heights, normals and hole bitmap, {ROUNDS} rounds on both rebuild paths, every file walked). A case is non-trivial when the builder accepted it and a file was produced; distinct by (version, site vector).",
         NSITES,
         SITES.iter().map(|s| s.vals.len()).sum::<usize>(),
-        if tier == Tier::Quick { "; 256 populated MCNK within <= 2 deviations of the minimal and <= 1 of the full baseline".to_string() } else { format!("; thorough adds a third baseline (full with staggered sub-chunk presence: sub-chunk k present on chunk i iff (i+k) even) with the same deviation bound as full, 256 populated MCNK there only within <= 2 deviations; with 3 deviations, inputs that the builder documents as refused are not enumerated again. The sites of space main use their core values ({} values). Thorough-only spaces over the extended alphabet ({} values: name lists of 300 names / > 65535 bytes, multi-byte UTF-8 names, 1821 doodad and 1025 WMO placements (> 65535 bytes), 3/17/255/257 terrain chunks, 2 and 3 layers, 3-byte alpha maps, 40 sound emitters, WMO-only and 150 references, ocean/slime/flat legacy liquid, all 8 subsets of MCMT/MCDD/MCBB, chunk flags impassable+do-not-fix-alpha and high-res holes with a hole bitmap, water on all 256 chunks / attributes-only entry / 1-entry list, 3-layer and 64-bit-bitmap water, MTXF/MTXP counts differing from the texture count, 1-batch and > 65535-byte blend meshes): ext = all specs with <= 2 deviations from the three baselines with at least one extended value; chunks = full product of {} per-chunk sites ({} combinations, 256 consecutive combinations on the 256 terrain chunks of one tile, {} tiles) x 6 versions, top level at the full baseline, 2 rounds; top_names = full product textures x models x doodads x wmos x wmo_placements x flight_bounds x water(none, chunk 0) x 6 versions; top_chunks = full product textures(1, 3) x flight_bounds x mtxf(4) x mamp x mtxp(3) x blend_mesh(4) x water set(8) x water format(10) x 6 versions with one terrain chunk, and the same product with one water format and the 256 terrain chunks the serialiser generates, all without the combinations documented as refused, 3 rounds on three rebuild paths (the third alternates from_root_adt and from_parsed); convert = the three baselines with <= 1 deviation over the whole alphabet, and the full baseline with 2 deviations among the top-level sites, x 6 versions: BuiltAdt::from_root_adt(root, Some(v)) for all 6 v, one plain re-serialisation of every converted tile on both rebuild paths (no growth, same content), and back to the built version (every file walked; content compared for the sections that exist in the oldest version of the chain; all-zero MFBO / MTXF added by a conversion not judged), then AdtBuilder::from_parsed(root) + add_texture/add_model/add_wmo/add_mcnk_chunk -> build -> to_bytes -> walk -> parse == parsed content plus the additions", SITES.iter().map(|s| s.core).sum::<usize>(), SITES.iter().map(|s| s.vals.len()).sum::<usize>(), CHUNK_PRODUCT.len(), chunk_product_len(), chunk_product_len().div_ceil(256)) }
+        if tier == Tier::Quick { "; 256 populated MCNK within <= 2 deviations of the minimal and <= 1 of the full baseline".to_string() } else { format!("; thorough adds a third baseline (full with staggered sub-chunk presence: sub-chunk k present on chunk i iff (i+k) even) with the same deviation bound as full, 256 populated MCNK there only within <= 2 deviations; with 3 deviations, inputs that the builder documents as refused are not enumerated again. The sites of space main use their core values ({} values). Thorough-only spaces over the extended alphabet ({} values: name lists of 300 names / > 65535 bytes, multi-byte UTF-8 names, 1821 doodad and 1025 WMO placements (> 65535 bytes), 3/17/255/257 terrain chunks, 2 and 3 layers, 3-byte alpha maps, 40 sound emitters, WMO-only and 150 references, ocean/slime/flat legacy liquid, all 8 subsets of MCMT/MCDD/MCBB, chunk flags impassable+do-not-fix-alpha and high-res holes, the hole-bitmap values of space holes, water on all 256 chunks / attributes-only entry / 1-entry list, 3-layer and 64-bit-bitmap water, MTXF/MTXP counts differing from the texture count, 1-batch and > 65535-byte blend meshes): ext = all specs with <= 2 deviations from the three baselines with at least one extended value; chunks = full product of {} per-chunk sites ({} combinations, 256 consecutive combinations on the 256 terrain chunks of one tile, {} tiles) x 6 versions, top level at the full baseline, 2 rounds; top_names = full product textures x models x doodads x wmos x wmo_placements x flight_bounds x water(none, chunk 0) x 6 versions; top_chunks = full product textures(1, 3) x flight_bounds x mtxf(4) x mamp x mtxp(3) x blend_mesh(4) x water set(8) x water format(10) x 6 versions with one terrain chunk, and the same product with one water format and the 256 terrain chunks the serialiser generates, all without the combinations documented as refused, 3 rounds on three rebuild paths (the third alternates from_root_adt and from_parsed); convert = the three baselines with <= 1 deviation over the whole alphabet, and the full baseline with 2 deviations among the top-level sites, x 6 versions: BuiltAdt::from_root_adt(root, Some(v)) for all 6 v, one plain re-serialisation of every converted tile on both rebuild paths (no growth, same content), and back to the built version (every file walked; content compared for the sections that exist in the oldest version of the chain; all-zero MFBO / MTXF added by a conversion not judged), then AdtBuilder::from_parsed(root) + add_texture/add_model/add_wmo/add_mcnk_chunk -> build -> to_bytes -> walk -> parse == parsed content plus the additions", SITES.iter().map(|s| s.core).sum::<usize>(), SITES.iter().map(|s| s.vals.len()).sum::<usize>(), CHUNK_PRODUCT.len(), chunk_product_len(), chunk_product_len().div_ceil(256)) },
+        SITES[S_HOLES].vals.len(),
+        if tier == Tier::Quick { "target version MoP (thorough: all 6 target versions, the builder accepts the flag for each)" } else { "all 6 target versions (the builder accepts the flag for each)" }
     );
     c.assume("content equality is judged on a canonical byte rendering of every section (floats by bit pattern); derived fields are excluded: MCNK header offsets/sizes/n_layers/n_snd_emitters, MCNR trailing padding, MH2O header/instance offsets and layer_count, MHDR/MCIN/MMID/MWID (checked by the walker instead); an empty section equals an absent one");
     c.assume("detected version is not content: version detection from chunk presence may legitimately report an older version when no newer chunk is present (counted, not judged); content lost because of it is judged");
@@ -1169,6 +1246,7 @@ fn main() {
     c.assume("raw sub-chunk sizes: MCVT/MCCV/MCLV 4 bytes per vertex, MCNR 3 bytes per normal plus 13, MCLY 16 bytes per layer, MCRF/MCRD/MCRW 4 bytes per reference, MCSE 28 bytes per emitter, MCSH/MCAL the bytes given (record sizes of /repo/docs/src/formats/world-data/adt.md and the public ADT/v18 layout)");
     c.assume("explicit version conversion: sections that do not exist in the target version may be dropped, an all-zero MFBO and one zero MTXF flag per texture may be added (documented on BuiltAdt::from_root_adt); the MCNK flag word is not compared below MoP; file growth is not judged for conversions");
     c.run_space("main", "");
+    c.run_space("holes", "");
     c.run_space("savefile", "");
     if tier == Tier::Thorough {
         for sp in ["ext", "chunks", "top_names", "top_chunks", "convert"] {
@@ -1185,6 +1263,16 @@ fn main() {
     axes.insert("rebuild_paths".into(), json!(2));
     c.extra_cov.insert("axes".into(), Value::Object(axes));
     c.extra_cov.insert("max_deviations".into(), json!({"minimal": dmin, "full": dfull}));
+    {
+        let mut classes: std::collections::BTreeMap<&str, u64> = Default::default();
+        for (_, cl) in hole_alphabet() {
+            *classes.entry(cl).or_insert(0) += 1;
+        }
+        c.extra_cov.insert(
+            "holes_space".into(),
+            json!({"hole_bitmap_values": SITES[S_HOLES].vals.len(), "values_per_class_after_default": classes, "small_halves": SMALL_HALVES.iter().map(|v| format!("{v:#x}")).collect::<Vec<_>>(), "baselines": HOLES_BASELINES, "versions": Holes::versions(tier).iter().map(|v| VERSIONS[*v].0).collect::<Vec<_>>(), "rounds": ROUNDS, "rebuild_paths": 2}),
+        );
+    }
     if tier == Tier::Thorough {
         let mut core = serde_json::Map::new();
         for s in SITES.iter() {
